@@ -249,3 +249,20 @@ Theorem C13_original_fboundp_qualified_refuted :
   res_mask_orig true (q_fun (fold_left xstep ops (init 0%N)) 1%N 0%N 2%N true) = 28%N.
 Proof. exact original_fboundp_qualified_refuted. Qed.
 Print Assumptions C13_original_fboundp_qualified_refuted.
+
+(* (8) QUALIFIED FMAKUNBOUND: (fmakunbound 'p:n) / (fmakunbound 'p::n) is a step of the histories of (6)
+   (XFmakunboundQ: C13_xstep_preserves_relation, C13_xrefinement_general and C13_xrefinement_prefix quantify
+   over it; its guard clause is the one of (fmakunbound 'n) evaluated in p, and only when the name is visible).
+   Non-vacuity and the refutation of the unrepaired code (a silent no-op): from package 1, two colons remove
+   the private function of package 0 in S and in M, one colon leaves it; the unrepaired step keeps the
+   function where S removes it *)
+Theorem C13_qualified_fmakunbound_nonvacuous_and_original_refuted :
+  let two := [XB (ODefun 2%N 1%Z); XB (OInPkg 1%N); XFmakunboundQ 0%N 2%N true] in
+  let one := [XB (ODefun 2%N 1%Z); XB (OInPkg 1%N); XFmakunboundQ 0%N 2%N false] in
+  xguard_run PK NM (sinit 0%N) two = true /\ xguard_run PK NM (sinit 0%N) one = true /\
+  sq_fun (fold_left sxstep two (sinit 0%N)) 1%N 0%N 2%N true = QUnbound /\
+  q_fun (fold_left xstep two (init 0%N)) 1%N 0%N 2%N true = QUnbound /\
+  sq_fun (fold_left sxstep one (sinit 0%N)) 1%N 0%N 2%N true = QVal 1%Z /\
+  q_fun (fmakunbound_q_orig (fold_left xstep [XB (ODefun 2%N 1%Z); XB (OInPkg 1%N)] (init 0%N)) 0%N 2%N true) 1%N 0%N 2%N true = QVal 1%Z.
+Proof. exact fmakunbound_q_nonvacuous. Qed.
+Print Assumptions C13_qualified_fmakunbound_nonvacuous_and_original_refuted.
